@@ -15,26 +15,26 @@ import (
 // WorkloadView is the kind-independent view of the workload the monitors judge against. Counts come from
 // the pods in the store (the truth), not from the workload's own status.
 type WorkloadView struct {
-	Kind       string
-	Replicas   int    // spec.replicas
-	Exposure   int    // new-revision pods the update knob currently lets the native controller run
-	KnobText   string // textual form of the knob (for messages)
-	Paused     bool
-	Image      string // desired template image
-	UpdateRev  string // revision of the desired template
-	Pods       int
-	Updated    int // pods on the desired template's revision
-	UpdatedReady int
-	Ready      int
-	ByRevision map[string]int // short hash -> pods
-	ReadyByRevision map[string]int
-	MaxUnavailable int // what the workload's own strategy tolerates as unavailable
-	CanaryPods, CanaryPodsReady int // pods of an extra canary Deployment (canary style)
-	Controlled bool // batchrelease control-info annotation present
-	InProgress bool // rollouts.kruise.io/in-progressing annotation present
+	Kind                           string
+	Replicas                       int    // spec.replicas
+	Exposure                       int    // new-revision pods the update knob currently lets the native controller run
+	KnobText                       string // textual form of the knob (for messages)
+	Paused                         bool
+	Image                          string // desired template image
+	UpdateRev                      string // revision of the desired template
+	Pods                           int
+	Updated                        int // pods on the desired template's revision
+	UpdatedReady                   int
+	Ready                          int
+	ByRevision                     map[string]int // short hash -> pods
+	ReadyByRevision                map[string]int
+	MaxUnavailable                 int  // what the workload's own strategy tolerates as unavailable
+	CanaryPods, CanaryPodsReady    int  // pods of an extra canary Deployment (canary style)
+	Controlled                     bool // batchrelease control-info annotation present
+	InProgress                     bool // rollouts.kruise.io/in-progressing annotation present
 	Generation, ObservedGeneration int64
-	Annotations map[string]string
-	Labels     map[string]string
+	Annotations                    map[string]string
+	Labels                         map[string]string
 }
 
 // ViewWorkload builds the view of the scenario's workload from the store.
@@ -61,6 +61,20 @@ func ViewWorkload(w *World, sc *Scenario) *WorkloadView {
 		_, v.Controlled = cs.Annotations[util.BatchReleaseControlAnnotation]
 		_, v.InProgress = cs.Annotations[util.InRolloutProgressingAnnotation]
 		fillPods(v, ownedPods(w, sc.ns(), cs.UID))
+		return v
+	case "StatefulSet":
+		st := &apps.StatefulSet{}
+		if !w.Get(st, sc.ns(), AppName) {
+			return nil
+		}
+		v := &WorkloadView{Kind: "StatefulSet", Replicas: int(*st.Spec.Replicas), Image: st.Spec.Template.Spec.Containers[0].Image,
+			UpdateRev: RevisionOf(st.Name, &st.Spec.Template), Generation: st.Generation, ObservedGeneration: st.Status.ObservedGeneration,
+			Annotations: st.Annotations, Labels: st.Labels, ByRevision: map[string]int{}, ReadyByRevision: map[string]int{}}
+		v.Exposure = exposureOf(sc, st)
+		v.KnobText = fmt.Sprintf("partition=%d", stsPartition(st))
+		_, v.Controlled = st.Annotations[util.BatchReleaseControlAnnotation]
+		_, v.InProgress = st.Annotations[util.InRolloutProgressingAnnotation]
+		fillPods(v, ownedPods(w, sc.ns(), st.UID))
 		return v
 	case "Deployment":
 		d := &apps.Deployment{}
@@ -201,6 +215,13 @@ func exposureOf(sc *Scenario, obj interface{}) int {
 		return r - ceilPartition(o.Spec.UpdateStrategy.Partition, r)
 	case *apps.Deployment:
 		return exposureOfDeployment(sc, o)
+	case *apps.StatefulSet:
+		r := int(*o.Spec.Replicas)
+		e := r - stsPartition(o)
+		if e < 0 {
+			e = 0
+		}
+		return e
 	}
 	return 0
 }
